@@ -649,12 +649,13 @@ def _run(*, tier, seed, jobs, progress, opts):
                    for pr in c04mt.EXTRA_PAIRS if layout == '++'
                    or 'raw' not in pr[0] + pr[1]]
         core = ['APPEND', 'SELECT', 'COPY', 'MOVE']
-        mtasks += [('++', pr, d, 2, None) for pr in c04mt.pairs(core)
-                   for d in (False, True)]
-        mtasks += [('++', pr, False, 2, None) for pr in c04mt.EXTRA_PAIRS[:6]]
+        from . import mtmaildir as mtm
+        # bound 2: one task per group of first-level deviations
+        for pr in c04mt.pairs(core) + c04mt.EXTRA_PAIRS[:4]:
+            mtasks += [('++', pr, False, 2, None, ch) for ch in
+                       mtm.split_prefixes('++', pr, c04mt.PROGRAMS, 2, 0)]
         # CHECK against a SELECT that claims new/: needs two preemptions
         # (spread over the workers by first-level deviation)
-        from . import mtmaildir as mtm
         pr2 = ('SELECT', 'CHECK-holding-new')
         mtasks += [('++', pr2, False, 2, None, ch) for ch in
                    mtm.split_prefixes('++', pr2, c04mt.PROGRAMS, 2, 0)]
